@@ -309,19 +309,34 @@ def check(prog, rep, tier):
     for p in paths(prog, "CountingCuckooFilter", bd):
         fl_ = [e for e in p.events if e.kind == "call" and e.name == "fromlist" and e.args]
         ex = [e for e in p.events if e.kind == "call" and e.name == "extend" and e.args]
-        fl_ = fl_ or [e for e in p.events if e.kind == "call" and e.name == "extend" and e.args and e.loops and len(e.loops) == 1 and strip_epochs(e.args[0])[0] in ("nary", "comp")
+        fl_ = fl_ or [e for e in p.events if e.kind == "call" and e.name == "extend" and e.args and e.loops and len(e.loops) == 1 and strip_epochs(e.args[0])[0] in ("nary", "comp", "bin")
                       and any(n == C(0) for n in walk(e.args[0]))]
         if fl_ and ex:
             a = strip_epochs(fl_[0].args[0])
             lid = fl_[0].loops[0]
             want_len = ("bin", "*", ("bin", "-", ("p", "bucket_size"), ("call", ("g", "len"), (("it", lid, ("p", "buckets")),), ())), C(2))
-            okd = False
-            if a[0] == "comp" and a[2] == C(0) and len(a[3]) == 1:
-                okd = canon(a[3][0][2]) == canon(("call", ("g", "range"), (want_len,), ()))
-            elif a[0] == "nary" and a[1] == "*" and ("lst", (C(0),)) in a[2]:
-                rest = [x for x in a[2] if x != ("lst", (C(0),))]
-                got_len = rest[0] if len(rest) == 1 else ("nary", "*", tuple(rest))
-                okd = canon(got_len) == canon(want_len)
+            def zero_words(v):
+                """number of words of a sequence that is all zeros (an expression), or None"""
+                if v[0] == "lst" and v[1] and all(x == C(0) for x in v[1]):
+                    return C(len(v[1]))
+                if v[0] == "newb" and v[1] == "array" and len(v[3]) == 2 and v[3][0] == C("I"):
+                    return zero_words(v[3][1])
+                if v[0] == "comp" and v[2] == C(0) and len(v[3]) == 1 and not v[3][0][3]:
+                    d = v[3][0][2]
+                    return d[2][0] if d[0] == "call" and d[1] == ("g", "range") and len(d[2]) == 1 else None
+                if v[0] in ("nary", "bin") and v[1] == "*":
+                    fs = list(v[2]) if v[0] == "nary" else [v[2], v[3]]
+                    zs = [(x, zero_words(x)) for x in fs if x[0] in ("lst", "newb", "comp")]
+                    zs = [(x, n) for x, n in zs if n is not None]
+                    if len(zs) == 1:
+                        rest = [x for x in fs if x is not zs[0][0]]
+                        acc = zs[0][1]
+                        for x in rest:
+                            acc = ("bin", "*", acc, x)
+                        return norm(acc)
+                return None
+            zw = zero_words(a)
+            okd = zw is not None and canon(zw) == canon(want_len)
             okd = okd and fl_[0].recv[0] == "newb" and fl_[0].recv[3][0] == C("I")
     if okd:
         rep.ok("C06.cuckoo-buckets", "CountingCuckooFilter: (fingerprint, count) uint32 pairs, padded with 2*(bucket_size-len) zeros")
